@@ -15,7 +15,7 @@ Definition last_post_act (tr : list event) : option act :=
 (* does the root node call a user post function of its own? *)
 Definition root_has_post (sc : escen) : bool :=
   match table_of (es_nodes sc) (es_root sc) with
-  | Some (NUser c) => match u_post c with FDirect | FRes | FAny => true | _ => false end
+  | Some (NUser c) => has_post c
   | Some (NBatch c _ _) => match u_post c with FBatch => true | _ => false end
   | _ => false
   end.
@@ -39,9 +39,6 @@ Definition spec_C18 (sc : escen) (ob : eobs) : bool :=
   forallb (fun r : erun => let '(tr, oc, fl) := r in
                            match fl with OkRun => spec_C18_run (root_has_post sc) tr oc | _ => false end) ob.
 
-(* the model's observation in the shape of an implementation observation *)
-Definition pair_of_outcome (oc : outcome) : act * option err :=
-  match oc with Done a => (a, None) | Fail e => (A_EMPTY, Some e) end.
 Definition erun_of_model (m : option (list event * outcome)) : option erun :=
   match m with
   | Some (tr, oc) => Some (tr, pair_of_outcome oc, OkRun)
